@@ -1369,3 +1369,52 @@ pub fn parse_prog(text: &str) -> Result<Expr, String> {
         Err(p) => Err(format!("PANIC {p}")),
     }
 }
+
+// ---------------------------------------------------------------------------------------
+// the CLI as a third observation point
+// ---------------------------------------------------------------------------------------
+
+/// Run `succinctly jq -c <prog>` on `input` (stdin).  Outcome in the same shape as the in-process
+/// runs: stdout lines parsed back into values; end = ok | err (v = the message text after
+/// "jq: error (at ...): ", with " (not a string)" kept as a prefix marker) | halt (exit code) .
+pub fn run_cli(cli: &str, prog: &str, input: &str) -> Value {
+    use std::io::Write;
+    use std::process::{Command, Stdio};
+    let mut child = match Command::new(cli).args(["jq", "-c", prog]).stdin(Stdio::piped()).stdout(Stdio::piped()).stderr(Stdio::piped()).spawn() {
+        Ok(c) => c,
+        Err(e) => die(&format!("cannot spawn {cli}: {e}")),
+    };
+    child.stdin.take().unwrap().write_all(input.as_bytes()).ok();
+    let out = child.wait_with_output().unwrap_or_else(|e| die(&format!("cli wait: {e}")));
+    let stdout = String::from_utf8_lossy(&out.stdout).to_string();
+    let stderr = String::from_utf8_lossy(&out.stderr).to_string();
+    let mut vals = vec![];
+    let mut unparsable = false;
+    for ln in stdout.lines() {
+        match parse_v(ln) {
+            Some(v) => vals.push(v.enc()),
+            None => unparsable = true,
+        }
+    }
+    let code = out.status.code().unwrap_or(-1) as i64;
+    let msg_line = stderr.lines().find(|l| l.starts_with("jq: error")).map(|s| s.to_string());
+    let end = if unparsable {
+        end_json("garbled", json!({"t":"str","cp":cps(&stdout)}), "", code)
+    } else if let Some(m) = msg_line {
+        // "jq: error (at <stdin>:N): msg"  |  "jq: error (at <stdin>:N) (not a string): json"
+        let rest = m.trim_start_matches("jq: error");
+        let rest = rest.trim_start();
+        let rest = if rest.starts_with("(at ") { rest.split_once(')').map(|x| x.1).unwrap_or(rest) } else { rest };
+        let (nas, text) = if let Some(t) = rest.strip_prefix(" (not a string): ") {
+            (1, t)
+        } else {
+            (0, rest.strip_prefix(": ").unwrap_or(rest))
+        };
+        json!({"k":"err","v":{"t":"str","cp":cps(text)},"l":"","c":nas})
+    } else if code != 0 {
+        end_json("halt", json!({"t":"null"}), "", code)
+    } else {
+        ok_end()
+    };
+    json!({"out": vals, "end": end, "stderr": stderr.chars().take(300).collect::<String>()})
+}
